@@ -3,22 +3,53 @@
 #ifndef TETL_CMATH_ERF_HPP
 #define TETL_CMATH_ERF_HPP
 
+#include <etl/_config/all.hpp>
+
 #include <etl/_3rd_party/gcem/gcem.hpp>
 #include <etl/_concepts/integral.hpp>
+#include <etl/_type_traits/is_constant_evaluated.hpp>
+#include <etl/_type_traits/is_same.hpp>
 
 namespace etl {
+
+namespace detail {
+
+template <typename T>
+[[nodiscard]] constexpr auto erf(T arg) noexcept -> T
+{
+    if (not is_constant_evaluated()) {
+        if constexpr (is_same_v<T, float>) {
+#if __has_builtin(__builtin_erff)
+            return __builtin_erff(arg);
+#endif
+        }
+        if constexpr (is_same_v<T, double>) {
+#if __has_builtin(__builtin_erf)
+            return __builtin_erf(arg);
+#endif
+        }
+        if constexpr (is_same_v<T, long double>) {
+#if __has_builtin(__builtin_erfl)
+            return __builtin_erfl(arg);
+#endif
+        }
+    }
+    return detail::gcem::erf(arg);
+}
+
+} // namespace detail
 
 /// \ingroup cmath
 /// @{
 
 /// Computes the error function of arg.
 /// \details https://en.cppreference.com/w/cpp/numeric/math/erf
-[[nodiscard]] constexpr auto erf(float arg) noexcept -> float { return etl::detail::gcem::erf(arg); }
-[[nodiscard]] constexpr auto erff(float arg) noexcept -> float { return etl::detail::gcem::erf(arg); }
-[[nodiscard]] constexpr auto erf(double arg) noexcept -> double { return etl::detail::gcem::erf(arg); }
-[[nodiscard]] constexpr auto erf(long double arg) noexcept -> long double { return etl::detail::gcem::erf(arg); }
-[[nodiscard]] constexpr auto erfl(long double arg) noexcept -> long double { return etl::detail::gcem::erf(arg); }
-[[nodiscard]] constexpr auto erf(integral auto arg) noexcept -> double { return etl::detail::gcem::erf(double(arg)); }
+[[nodiscard]] constexpr auto erf(float arg) noexcept -> float { return etl::detail::erf(arg); }
+[[nodiscard]] constexpr auto erff(float arg) noexcept -> float { return etl::detail::erf(arg); }
+[[nodiscard]] constexpr auto erf(double arg) noexcept -> double { return etl::detail::erf(arg); }
+[[nodiscard]] constexpr auto erf(long double arg) noexcept -> long double { return etl::detail::erf(arg); }
+[[nodiscard]] constexpr auto erfl(long double arg) noexcept -> long double { return etl::detail::erf(arg); }
+[[nodiscard]] constexpr auto erf(integral auto arg) noexcept -> double { return etl::detail::erf(double(arg)); }
 
 /// @}
 
